@@ -354,14 +354,22 @@ def c16() -> int:
     c = Check("C16", "explicit-state BFS of the real step function (FSX); every transition wrapped with deep fingerprints of the retained states and executed twice")
     c.assumptions += ["a SimulationState is 'read' through a deep structural walk that follows mutable containers and objects of the library (road network included)"]
     quick = tier() == "quick"
-    fsx(c, ("hivemc.w_imm", "make_res", {"variant": "core"}), ("hivemc.bundles", "c16", {}), K=2, H=6 if quick else 8, needs=["c16:apply_calls"])
-    fsx(c, ("hivemc.w_imm", "make_req", {}), ("hivemc.bundles", "c16", {}), K=2 if quick else 3, H=7 if quick else 9, needs=["c16:apply_calls"])
-    fsx(c, ("hivemc.w_imm", "make_grid", {}), ("hivemc.bundles", "c16", {}), K=2, H=7 if quick else 9, needs=["c16:apply_calls"])
+    from .fsx_divergence import guarded as gfsx
+    gfsx(c, fsx, ("hivemc.w_imm", "make_res", {"variant": "core"}), ("hivemc.bundles", "c16", {}), K=2, H=6 if quick else 8, needs=["c16:apply_calls"])
+    gfsx(c, fsx, ("hivemc.w_imm", "make_req", {}), ("hivemc.bundles", "c16", {}), K=2 if quick else 3, H=7 if quick else 9, needs=["c16:apply_calls"])
+    gfsx(c, fsx, ("hivemc.w_imm", "make_grid", {}), ("hivemc.bundles", "c16", {}), K=2, H=7 if quick else 9, needs=["c16:apply_calls"])
     # the built-in Dispatcher as carried-forward controller; stations throttled at run time (mid-power plugs)
-    fsx(c, ("hivemc.w_imm", "make_req", {"dispatcher": True, "name": "W-req+dispatcher/imm"}), ("hivemc.bundles", "c16", {}), K=2, H=6 if quick else 8, needs=["c16:carried_controller_steps"])
-    fsx(c, ("hivemc.w_imm", "make_res", {"variant": "core", "throttle": 0.24, "mechs": ("thirsty", "thirsty", "quiet"), "pairs": False, "name": "W-res/imm/throttled"}),
+    gfsx(c, fsx, ("hivemc.w_imm", "make_req", {"dispatcher": True, "name": "W-req+dispatcher/imm"}), ("hivemc.bundles", "c16", {}), K=2, H=6 if quick else 8, needs=["c16:carried_controller_steps"])
+    gfsx(c, fsx, ("hivemc.w_imm", "make_res", {"variant": "core", "throttle": 0.24, "mechs": ("thirsty", "thirsty", "quiet"), "pairs": False, "name": "W-res/imm/throttled"}),
         ("hivemc.bundles", "c16", {}), K=2, H=5 if quick else 7, needs=["c16:carried_controller_steps"])
-    fsx(c, ("hivemc.w_imm", "make_auto", {}), ("hivemc.bundles", "c16", {}), K=2, H=10 if quick else 16, needs=["c16:carried_controller_steps"])
+    gfsx(c, fsx, ("hivemc.w_imm", "make_auto", {}), ("hivemc.bundles", "c16", {}), K=2, H=10 if quick else 16, needs=["c16:carried_controller_steps"])
+    # a low human-driven vehicle the ChargingFleetManager looks at every step, dispatched by the controller, whose shift ends under way
+    gfsx(c, fsx, ("hivemc.w_imm", "make_auto", {"controller": True, "home_plug": False, "h0_energy": 0.6}), ("hivemc.bundles", "c16", {}), K=2, H=6 if quick else 9)
+    # the second station-search strategy (its ranking replays the sessions of the plugged and queued vehicles) beside the controller:
+    # v0 (nearly empty) is sent to s0 by the manager and plugs in, a vehicle the controller sends there queues, and v2, whose idle
+    # draw makes it a charge candidate a few steps later, ranks busy s0 against empty s1 in the same ring of search cells
+    gfsx(c, fsx, ("hivemc.w_imm", "make_res", {"variant": "core", "auto": "stc", "mechs": ("thirsty", "thirsty", "thirsty"), "v2_energy": 0.23, "v2_site": "N3", "s1_site": "M2", "pairs": False, "name": "W-res/imm/stc"}),
+        ("hivemc.bundles", "c16", {}), K=2, H=5 if quick else 8)
     return c.finish()
 
 
